@@ -155,6 +155,22 @@ func (propC10) GenAt(index int, seed uint64, tier string) *Case {
 			rec.Ops = append(rec.Ops, Op{K: "add", Node: g.decl()})
 		}
 	}
+	if r.Chance(0.03) {
+		// failure burst: many failing calls in a row, then calls that must still work
+		rec.Frags = append(rec.Frags, &Node{K: "bad"})
+		bad := len(rec.Frags) - 1
+		for i := r.Range(9, 20); i > 0; i-- {
+			switch r.Intn(3) {
+			case 0:
+				rec.Ops = append(rec.Ops, Op{K: "render_frag", I: bad})
+			case 1:
+				rec.Ops = append(rec.Ops, Op{K: "render_frag_nofile", I: bad})
+			default:
+				rec.Ops = append(rec.Ops, Op{K: "render", W: &WriterPlan{FailAt: 1, Kind: "err"}})
+			}
+		}
+		rec.Ops = append(rec.Ops, Op{K: "render"}, Op{K: "render_frag", I: 0})
+	}
 	c := &Case{Property: "C10", Seed: seed, Tier: tier, Recipe: rec}
 	c.Cfg, _ = json.Marshal(cfg)
 	c.Execs = []ExecSpec{{Mode: "shuffle", Seed: Mix(seed, 5)}}
